@@ -24,7 +24,7 @@ COMPONENTS = {"real": ["pyjelly serializers and parsers of both integrations inc
               "stub": ["reader for the option-off clause: simkit.refdec"]}
 ASSUMPTIONS = ["rdflib: bindings use labels/IRIs that do not collide with rdflib's default bindings and are compared "
                "as rdflib holds them on the source graph"]
-PROBES = ["default_namespace_relabelled", "bare_target_reads", "generator_with_option_on", "multi_group_declarations", "generic_runs", "rdflib_runs", "evictions_with_ns", "empty_prefix_label", "cross_integration_reads",
+PROBES = ["default_namespace_relabelled", "bare_target_reads", "generator_with_option_on", "multi_group_declarations", "per_group_bindings", "label_rebound_between_groups", "generic_runs", "rdflib_runs", "evictions_with_ns", "empty_prefix_label", "cross_integration_reads",
           "physical_GRAPHS", "physical_QUADS"]
 SHRINK_LISTS = ["ops"]
 
@@ -68,6 +68,18 @@ def generate(rng, run, tier):
     if entry == "grouped_file":
         cfg["groups"] = c01.split_groups(rng, len(stmts)) if rng.random() < 0.6 else [len(stmts)]
         cfg["ns_all_groups"] = True
+        if len(cfg["groups"]) > 1 and nss and rng.random() < 0.5:
+            # each input of the grouped write has bindings of its own: a subset in another order, now and then a
+            # label bound to a different namespace than in an earlier input - and bound back later (A, B, A)
+            per = []
+            for _ in cfg["groups"]:
+                mine = [list(b) for b in rng.sample(nss, rng.randint(0, len(nss)))]
+                if mine and len(nss) > 1 and rng.random() < 0.4:
+                    mine[rng.randrange(len(mine))][1] = rng.choice(nss)[1]
+                per.append(mine)
+            if rng.random() < 0.5:
+                per[-1] = [list(b) for b in per[0]]
+            cfg["ns_groups"] = per
     ops = [["ns", p, i] for p, i in nss] + [["stmt", *T.to_json(st)] for st in stmts]
     return {"cfg": cfg, "ops": ops}
 
@@ -93,6 +105,70 @@ def read_all(integration, data, physical):
     via = True if integration == "generic" else ("graph" if physical == "TRIPLES" else "dataset")
     _, nss = nodes.parse_to_graph(integration, io.BytesIO(data), via_plugin=via)
     return events, stm, [(n[1], n[2]) for n in nss]
+
+
+def per_group_bindings(cfg, stmts, data_on, st_on, st_off, sim):
+    """Inputs of a grouped write that carry bindings of their own.  A writer may repeat a declaration the reader
+    already holds or not; what the property fixes is what the reader ends up with: when the statements of input k
+    arrive, every label input k binds must stand for the namespace input k binds it to (declarations applied in
+    stream order, the later one winning, as bind() does), and no binding is delivered that no input has."""
+    integration = cfg["integration"]
+    v = []
+    wants, starts, pos, held = [], [], 0, 0
+    for k, n in enumerate(cfg["groups"]):
+        c = nodes.make_container(cfg, stmts[pos:pos + n], [tuple(b) for b in cfg["ns_groups"][k]])
+        wants.append(source_bindings(cfg, stmts[pos:pos + n], [tuple(b) for b in cfg["ns_groups"][k]]))
+        starts.append(held)
+        # (what the container holds, not what was added to it: rdflib containers are sets)
+        held += sum(1 for _ in (c.quads() if hasattr(c, "quads") else c))
+        pos += n
+    rebound = False
+    seen = {}
+    for w in wants:
+        for p_, i_ in w:
+            if seen.setdefault(p_, i_) != i_:
+                rebound = True
+            seen[p_] = i_
+    if rebound:
+        sim.count("label_rebound_between_groups")
+    allowed = {b for w in wants for b in w}
+    readers = [integration]
+    if not cfg["generalized"] and not cfg["rdf_star"] and all(b[1] for g in cfg["ns_groups"] for b in g):
+        readers.append("rdflib" if integration == "generic" else "generic")
+    for reader in readers:
+        try:
+            flat = list(nodes.parse_flat(reader, io.BytesIO(data_on)))
+        except Exception as e:  # noqa: BLE001
+            v.append({"clause": "C14.parse_raised", "sig": {"exc": type(e).__name__, "reader": reader},
+                      "msg": f"{reader}: {type(e).__name__}: {e}"})
+            continue
+        env, n_st, k = {}, 0, 0
+        for item in flat:
+            if item[0] == "ns":
+                if (item[1], item[2]) not in allowed:
+                    v.append({"clause": "C14.declarations_differ", "sig": {"integration": integration, "reader": reader,
+                                                                          "groups": "own bindings"},
+                              "msg": f"{reader} flat parse delivered {(item[1], item[2])!r}, bound on no input"})
+                    break
+                env[item[1]] = item[2]
+                continue
+            while k < len(starts) and starts[k] == n_st:
+                bad = [(p_, i_, env.get(p_)) for p_, i_ in wants[k] if env.get(p_) != i_]
+                if bad:
+                    v.append({"clause": "C14.declarations_differ", "sig": {"integration": integration, "reader": reader,
+                                                                          "groups": "own bindings"},
+                              "msg": f"input {k} of the grouped write binds {bad[0][0]!r} to {bad[0][1]!r}; when its "
+                                     f"statements arrive the declarations read so far leave it at {bad[0][2]!r} "
+                                     f"(bindings per input: {cfg['ns_groups']!r})"})
+                    k = len(starts)
+                    break
+                k += 1
+            n_st += 1
+    same = (st_on == st_off) if integration == "generic" else (set(st_on) == set(st_off))
+    if not same:
+        v.append({"clause": "C14.statements_change_with_option", "sig": {"integration": integration},
+                  "msg": f"first difference {c01.first_diff(st_on, st_off)}"})
+    return v
 
 
 def execute(plan, sim):
@@ -141,6 +217,10 @@ def execute(plan, sim):
     n_groups = len(cfg.get("groups") or [1]) if cfg["entry"] == "grouped_file" else 1
     if n_groups > 1:
         sim.count("multi_group_declarations")
+    if cfg.get("ns_groups"):
+        sim.count("per_group_bindings")
+        v.extend(per_group_bindings(cfg, stmts, data_on, st_on, st_off, sim))
+        return v, key
     want_ev = want * n_groups
     # each input of a grouped write carries the bindings: a writer may declare them with every group (as pyjelly
     # does) or fewer times - the property asks that every binding is delivered, same prefix, same IRI, same order
